@@ -123,3 +123,33 @@ pub fn resolve_to_string_options(
         )
     })
 }
+
+// ==== ISO date-time <-> epoch nanoseconds ====
+
+use crate::iso::{IsoDateTime, IsoTime};
+use crate::time::EpochNanoseconds;
+
+/// `IsoDateTime::new_unchecked(..).as_nanoseconds()` (no limit check on the fields themselves).
+#[allow(clippy::too_many_arguments)]
+pub fn iso_date_time_as_nanoseconds(
+    year: i32,
+    month: u8,
+    day: u8,
+    hour: u8,
+    minute: u8,
+    second: u8,
+    millisecond: u16,
+    microsecond: u16,
+    nanosecond: u16,
+) -> TemporalResult<i128> {
+    let date = IsoDate::new_unchecked(year, month, day);
+    let time = IsoTime::new_unchecked(hour, minute, second, millisecond, microsecond, nanosecond);
+    IsoDateTime::new_unchecked(date, time)
+        .as_nanoseconds()
+        .map(|n| n.as_i128())
+}
+
+/// `IsoDateTime::from_epoch_nanos(&EpochNanoseconds(ns), offset)`
+pub fn iso_date_time_from_epoch_nanos(ns: i128, offset: i64) -> TemporalResult<IsoDateTime> {
+    IsoDateTime::from_epoch_nanos(&EpochNanoseconds::try_from(ns)?, offset)
+}
